@@ -119,6 +119,10 @@ def step (st : St) (ws0 : List String) : St × String :=
   | ["stopfeed", h] => match fromHex h with
     | some b => if b.length ≤ 65535 then ({ m := none }, "ok") else (st, "bad-op")
     | none => (st, "bad-op")
+  -- … and one more while Stop is still waiting for the tubes (the muxer is stopping)
+  | ["stopfeed2", h1, h2] => match fromHex h1, fromHex h2 with
+    | some b1, some b2 => if b1.length ≤ 65535 ∧ b2.length ≤ 65535 then ({ m := none }, "ok") else (st, "bad-op")
+    | _, _ => (st, "bad-op")
   | _ => (st, "bad-op")
 
 def main (_ : List String) : IO Unit := loopLines step {}
